@@ -254,6 +254,11 @@ def graph_cases(tier):
                 if jumps[a][0] == jumps[b][0]:
                     continue  # one jump per block end
                 yield {"k": "graph", "s": "G2", "pads": list(ps), "jumps": [jumps[a], jumps[b]]}
+    # chains: K absolute forward jumps whose targets sit 1, 2, 3, ... instructions below
+    # the boundary, so that every layout pass grows exactly one more jump
+    for K in (3, 12, 20, 40):
+        for op in ABS:
+            yield {"k": "chain", "s": "GC", "K": K, "op": op}
     if tier == "thorough":
         big = [U2 - 2, U2 - 1, U2, U2 + 1]
         for p0 in big:
@@ -283,9 +288,27 @@ def n_graph_cases(tier):
     jm = jump_menu(3)
     pairs = sum(1 for a in range(len(jm)) for b in range(a + 1, len(jm)) if jm[a][0] != jm[b][0])
     tot += len(pads(tier, 3)) ** 3 * pairs
+    tot += 4 * len(ABS)
     if tier == "thorough":
         tot += 4 * 2 * len(jump_menu(3))
     return tot
+
+
+def build_chain(case):
+    K, op = case["K"], case["op"]
+    P = U1 + 1 - 2 * K
+    blocks = [[I(op, Jump(j), 5) for j in range(1, K + 1)] + [I("NOP", None, 6)] * P]
+    # block j (j = K .. 1 in layout order) is one instruction; Jump(j) designates the
+    # block with index j, so lay them out as K, K-1, ..., 1
+    order = list(range(K, 0, -1))
+    index_of = {}
+    for pos, j in enumerate(order):
+        index_of[j] = pos + 1
+    blocks[0] = [I(op, Jump(index_of[j]), 5) for j in range(1, K + 1)] + [I("NOP", None, 6)] * P
+    for j in order:
+        blocks.append([I("NOP", None, 7)])
+    blocks[-1] = blocks[-1] + [I("LOAD_CONST", Constant(None), 8), I("RETURN_VALUE", None, 8)]
+    return mk(blocks)
 
 
 def build_graph(case):
@@ -463,7 +486,8 @@ def build_sig(case):
 
 
 OVR = [None, 0, 1, 2, 5]
-OV_KINDS = ["name", "const", "local", "cell"]
+OV_KINDS = ["name", "const", "local", "cell", "consteq-zero", "consteq-one"]
+CONSTEQ = {"consteq-zero": [0.0, -0.0], "consteq-one": [1, True]}
 
 
 def override_cases(tier):
@@ -474,7 +498,7 @@ def override_cases(tier):
 
 
 def n_override_cases(tier):
-    return 4 * 8 * 125
+    return len(OV_KINDS) * 8 * 125
 
 
 def build_override(case):
@@ -486,6 +510,9 @@ def build_override(case):
             ins.append(I("LOAD_NAME", Name("nm%d" % v, o)))
         elif kind == "const":
             ins.append(I("LOAD_CONST", Constant(v + 40, o)))
+        elif kind in CONSTEQ:
+            # two constants that are == but not the same constant
+            ins.append(I("LOAD_CONST", Constant(CONSTEQ[kind][v], o)))
         elif kind == "local":
             kw["type"] = Function(Args())
             ins.append(I("LOAD_FAST", Varname("lv%d" % v, o)))
@@ -556,6 +583,9 @@ class C03(Monitor):
             if len(flat(x)) < 700:
                 stats.sample(case["s"], case, per=1)
             self.judge(case, x, stats)
+        elif k == "chain":
+            stats.sample("GC", case, per=2)
+            self.judge(case, build_chain(case), stats)
         elif k == "table":
             stats.sample("T", case, per=2)
             self.judge(case, build_table(case), stats, big=case["n"] > 1000)
